@@ -148,7 +148,8 @@ From S4.Base Require Bytes Chunk.
 From S4.Spec Require LinesSpec WindowSpec.
 From S4.Spec Require RecordsSpec JournalSpec.
 From S4.Model Require Lines Syslines Search Coord Print Summary Gate.
-From S4.Model Require Year Records RecordRender Evtx Journal.
+From S4.Model Require Year Records RecordRender Evtx Journal JournalRender.
+From S4.Gen Require JournalTables.
 From S4.Gen Require FixedStructTables.
 From S4.Model Require Import Program.
 From S4.Proofs Require SyslinesProofs PrintStrip SummaryProofs FixedStructTablesOk YearProofs.
@@ -157,7 +158,9 @@ From S4.Proofs Require Import ProgramProofs ProgramExamples.
 (* THE composition theorem: for every oracle record, channel capacity, block size > 0, schedule,
    options and list of sources of ANY MIX of kinds:
      domain      dt_beg <= dt_end (C13) and per source (Program.src_ok):
-                 text      chronological (C03 binary search, C01 closed form), messages >= 2 bytes (C03)
+                 text      chronological (C03 binary search, C01 closed form), messages >= 2 bytes (C03),
+                           the first byte of a line never dates differently from the line (C02
+                           gate_then_refines: what block-zero analysis parses on the cached reader, F3a)
                  year-less the walk dates every message (C11; Issue #245 excluded) and the file is a
                            text file in the sense above under the INFERRED instants
                  records   in ANY stored order: score_file picks the file's layout (C08 detection
@@ -165,15 +168,28 @@ From S4.Proofs Require Import ProgramProofs ProgramExamples.
                            as_bytes_is_render), 0 <= usec < 10^6 on the kept records
                  events    in ANY enumeration order, texts newline-terminated
                  journal   libsystemd contract J1, receive times non-decreasing and positive,
-                           bounds < 2^64 us (C09), texts newline-terminated, merge instants of
-                           the in-window entries do not step back
+                           bounds < 2^64 us (C09), every rendering (Model/JournalRender.v, the ten
+                           --journal-output values, configuration regenerated) ends with a newline
+                 year-less additionally: the file is a text file also under the dates the STOPPED walk
+                           leaves (filler year above the stop), head lines do not repeat, and the
+                           window does not reach back to the filler dates (finding F17 excluded)
      gate_passed stage 1 (block-zero analysis) accepts every TEXT file AT THIS block size (C12: F3a-d)
      complete    the schedule is an execution of the coordinator that ends with every channel closed
-   the code-level program prints exactly the specification and tallies exactly its measures *)
-Theorem C01_program_correct : forall O cap bs sched o files,
-  (0 < bs)%N -> domain O o files -> gate_passed O bs files ->
+   the code-level program prints exactly the specification and tallies exactly its measures.
+   THIRD STAGE: in [program_m] a text file is read by the CACHED reader machine of Model/Caches.v
+   (BlockReader with its stored / dropped blocks and the look-behind drop of streamed containers,
+   LineReader and SyslineReader with their maps and LRU caches): block-zero analysis pattern (rp_k1
+   find_line_in_block, rp_k2 find_sysline_in_block calls), then the stage driver with the drop plan
+   rp_plan, a streamed file's container discipline rp_ck - for EVERY value of these reader parameters [rps].
+   A file with NO datetime window and a STREAMED file run work package A's stage drivers (c_stream; c_stream_win:
+   the window's linear search on that machine).  A SEEKABLE file WITH a window runs the binary search of
+   find_sysline_at_datetime_filter with the reader state threaded through (Program.SSearch) over find_sysline of
+   that machine, drop_data_try of the message before after every message.  Only a YEAR-LESS file (reverse pass of
+   process_missing_year first) still runs over the pure block-wise reader. *)
+Theorem C01_program_correct : forall O cap bs rps sched o files,
+  (0 < bs)%N -> domain O o files -> gate_passed O bs o files ->
   complete O cap o files sched ->
-  program_m O cap bs sched o files = POk (program_spec O o files).
+  program_m O cap bs rps sched o files = POk (program_spec O o files).
 Proof. exact program_correct. Qed.
 Print Assumptions C01_program_correct.
 
@@ -198,11 +214,11 @@ Print Assumptions C01_program_spec_plain.
 
 (* C12 at program level: block-size independence of the WHOLE output, for the block sizes at which
    stage 1 accepts the files *)
-Theorem C01_program_bs_independent : forall O cap bs1 bs2 sched o files,
+Theorem C01_program_bs_independent : forall O cap bs1 bs2 rps1 rps2 sched o files,
   (0 < bs1)%N -> (0 < bs2)%N -> domain O o files ->
-  gate_passed O bs1 files -> gate_passed O bs2 files ->
+  gate_passed O bs1 o files -> gate_passed O bs2 o files ->
   complete O cap o files sched ->
-  program_m O cap bs1 sched o files = program_m O cap bs2 sched o files.
+  program_m O cap bs1 rps1 sched o files = program_m O cap bs2 rps2 sched o files.
 Proof. exact program_bs_independent. Qed.
 Print Assumptions C01_program_bs_independent.
 
@@ -247,10 +263,10 @@ Proof. exact program_strip_sgr. Qed.
 Print Assumptions C01_program_strip_sgr.
 
 (* the same identities for what the CODE-LEVEL model prints, at any block size under any complete schedule *)
-Theorem C01_program_m_totals : forall O cap bs sched o files out tot,
-  (0 < bs)%N -> domain O o files -> gate_passed O bs files ->
+Theorem C01_program_m_totals : forall O cap bs rps sched o files out tot,
+  (0 < bs)%N -> domain O o files -> gate_passed O bs o files ->
   complete O cap o files sched ->
-  program_m O cap bs sched o files = POk (out, tot) ->
+  program_m O cap bs rps sched o files = POk (out, tot) ->
   Summary.c_summary (op_cli o) = true ->
   let evs := spec_events O o files in
   Summary.u_bytes tot = Print.blen (Print.payload out) /\
@@ -260,12 +276,12 @@ Theorem C01_program_m_totals : forall O cap bs sched o files out tot,
 Proof. exact program_m_totals. Qed.
 Print Assumptions C01_program_m_totals.
 
-Theorem C01_program_m_strip : forall O cap bs sched sched0 o files out tot out0 tot0,
-  (0 < bs)%N -> domain O o files -> gate_passed O bs files ->
+Theorem C01_program_m_strip : forall O cap bs rps rps0 sched sched0 o files out tot out0 tot0,
+  (0 < bs)%N -> domain O o files -> gate_passed O bs o files ->
   complete O cap o files sched ->
   complete O cap (undecorated_opts o) files sched0 ->
-  program_m O cap bs sched o files = POk (out, tot) ->
-  program_m O cap bs sched0 (undecorated_opts o) files = POk (out0, tot0) ->
+  program_m O cap bs rps sched o files = POk (out, tot) ->
+  program_m O cap bs rps0 sched0 (undecorated_opts o) files = POk (out0, tot0) ->
   let c := op_cli o in
   let evs := spec_events O o files in
   Print.strip_msgs (Summary.shape_of c (Summary.popt_of c (sources_of files) evs) evs) (Print.payload out)
@@ -346,7 +362,7 @@ Print Assumptions C01_adapter_print_site.
    different complete schedules (capacity 1 lazy workers, capacity 5 eager workers) ---- *)
 Example C01_program_example_domain :
   domain O_ex opts_ex files_ex /\
-  gate_passed O_ex 3 files_ex /\ gate_passed O_ex 64 files_ex /\
+  gate_passed O_ex 3 opts_ex files_ex /\ gate_passed O_ex 64 opts_ex files_ex /\
   complete O_ex 1 opts_ex files_ex sched_lazy /\
   complete O_ex 5 opts_ex files_ex sched_eager /\
   sched_lazy <> sched_eager.
@@ -354,8 +370,8 @@ Proof. exact ex_domain. Qed.
 Print Assumptions C01_program_example_domain.
 
 Example C01_program_example :
-  program_m O_ex 1 3 sched_lazy opts_ex files_ex = POk (program_spec O_ex opts_ex files_ex) /\
-  program_m O_ex 5 64 sched_eager opts_ex files_ex = POk (program_spec O_ex opts_ex files_ex) /\
+  program_m O_ex 1 3 rps_ex sched_lazy opts_ex files_ex = POk (program_spec O_ex opts_ex files_ex) /\
+  program_m O_ex 5 64 rps_ex sched_eager opts_ex files_ex = POk (program_spec O_ex opts_ex files_ex) /\
   fst (program_spec O_ex opts_ex files_ex) = Print.obs expected_ex /\
   let t := snd (program_spec O_ex opts_ex files_ex) in
   Summary.u_bytes t = 68%N /\ Summary.u_lines t = 7%N /\ Summary.u_sys t = 6%N /\
@@ -366,8 +382,8 @@ Print Assumptions C01_program_example.
 (* a file that stage 1 rejects sends no message: outside gate_passed *)
 Example C01_program_example_gate_rejects :
   Gate.gate dated_ex 64 f_small = Gate.FileErrTooSmall /\
-  exists out t, program_m O_ex 1 64 [Coord.Send 0; Coord.Recv 0; Coord.Send 0; Coord.Recv 0]
-                          (mkOptions cli_ex None None) files_small = POk (out, t) /\ out = [].
+  exists out t, program_m O_ex 1 64 rps_ex [Coord.Send 0; Coord.Recv 0; Coord.Send 0; Coord.Recv 0]
+                          (mkOptions cli_ex None None JournalRender.OCat jenv_ex) files_small = POk (out, t) /\ out = [].
 Proof. exact ex_gate_rejects. Qed.
 Print Assumptions C01_program_example_gate_rejects.
 
@@ -376,12 +392,12 @@ Print Assumptions C01_program_example_gate_rejects.
    file order, the specification the sorted order *)
 Theorem C01_program_unsorted_refuted :
   (file_chronological dated_ex f_uns -> False) /\
-  span_ok dtspan_ex /\ file_msgs_2bytes dated_ex f_uns /\ gate_passed O_ex 64 files_uns /\
+  span_ok dtspan_ex /\ file_msgs_2bytes dated_ex f_uns /\ gate_passed O_ex 64 opts_plain files_uns /\
   complete O_ex 1 opts_plain files_uns sched_uns /\
-  exists out t, program_m O_ex 1 64 sched_uns opts_plain files_uns = POk (out, t) /\
+  exists out t, program_m O_ex 1 64 rps_ex sched_uns opts_plain files_uns = POk (out, t) /\
                 Print.payload out = f_uns /\
                 Print.payload (fst (program_spec O_ex opts_plain files_uns)) = sorted_uns /\
-                program_m O_ex 1 64 sched_uns opts_plain files_uns
+                program_m O_ex 1 64 rps_ex sched_uns opts_plain files_uns
                 <> POk (program_spec O_ex opts_plain files_uns).
 Proof. exact (conj ex_chronological_needed ex_unsorted_refuted). Qed.
 Print Assumptions C01_program_unsorted_refuted.
@@ -389,13 +405,13 @@ Print Assumptions C01_program_unsorted_refuted.
 (* `gate_passed`: a 3-byte file is in the domain, its message is in the specification, stage 1
    rejects it at block size 64 (FileErrTooSmall) and the program prints nothing *)
 Theorem C01_program_gate_needed :
-  domain O_ex (mkOptions cli_ex None None) files_small /\
+  domain O_ex (mkOptions cli_ex None None JournalRender.OCat jenv_ex) files_small /\
   Gate.gate dated_ex 64 f_small <> Gate.FileOk /\
-  complete O_ex 1 (mkOptions cli_ex None None) files_small
+  complete O_ex 1 (mkOptions cli_ex None None JournalRender.OCat jenv_ex) files_small
            [Coord.Send 0; Coord.Recv 0; Coord.Send 0; Coord.Recv 0; Coord.Print; Coord.Send 0; Coord.Recv 0] /\
-  length (spec_events O_ex (mkOptions cli_ex None None) files_small) = 1%nat /\
-  program_m O_ex 1 64 [Coord.Send 0; Coord.Recv 0; Coord.Send 0; Coord.Recv 0]
-            (mkOptions cli_ex None None) files_small <> POk (program_spec O_ex (mkOptions cli_ex None None) files_small).
+  length (spec_events O_ex (mkOptions cli_ex None None JournalRender.OCat jenv_ex) files_small) = 1%nat /\
+  program_m O_ex 1 64 rps_ex [Coord.Send 0; Coord.Recv 0; Coord.Send 0; Coord.Recv 0]
+            (mkOptions cli_ex None None JournalRender.OCat jenv_ex) files_small <> POk (program_spec O_ex (mkOptions cli_ex None None JournalRender.OCat jenv_ex) files_small).
 Proof. exact ex_gate_needed. Qed.
 Print Assumptions C01_program_gate_needed.
 
@@ -404,10 +420,10 @@ Print Assumptions C01_program_gate_needed.
    "BeforeRange ... unexpected" error exit, under every schedule; the specification prints the
    later message (C03_bsearch_len1_refuted, at program level) *)
 Theorem C01_program_len1_refuted :
-  file_chronological dated_nl f_len1 /\ span_ok dtspan_ex /\ gate_passed O_nl 64 files_len1 /\
+  file_chronological dated_nl f_len1 /\ span_ok dtspan_ex /\ gate_passed O_nl 64 opts_len1 files_len1 /\
   (file_msgs_2bytes dated_nl f_len1 -> False) /\
   Print.payload (fst (program_spec O_nl opts_len1 files_len1)) = len1_expected /\
-  forall sched, program_m O_nl 1 64 sched opts_len1 files_len1 = PWorker 0 (GErr 3).
+  forall sched, program_m O_nl 1 64 rps_ex sched opts_len1 files_len1 = PWorker 0 (GErr 3).
 Proof. exact ex_len1_refuted. Qed.
 Print Assumptions C01_program_len1_refuted.
 
@@ -452,7 +468,7 @@ Print Assumptions C01_adapter_evtx_sorted.
 
 (* journals (C09 journal_out_correct): the in-window entries, journal order *)
 Theorem C01_adapter_journal_worker : forall O o j pf, pf_kind pf = KJournalFile j -> src_ok O o pf ->
-  journal_worker O (op_after o) (op_before o) j = (journal_spec O (op_after o) (op_before o) j, GOk).
+  journal_worker O o j = (journal_spec O o j, GOk).
 Proof. exact journal_worker_correct. Qed.
 Print Assumptions C01_adapter_journal_worker.
 
@@ -469,9 +485,9 @@ Print Assumptions C01_adapter_nl_split_lines.
 
 (* one worker of ANY kind: what it sends is what the specification lists for that source (text
    kinds: up to the split of lines into block parts), and every spec source is chronological *)
-Theorem C01_adapter_worker_any_kind : forall O bs o i pf, (0 < bs)%N -> span_ok (o_dtspan O) -> src_ok O o pf ->
-  gate_passed O bs [pf] ->
-  exists out, worker_out O bs o pf = (out, GOk) /\
+Theorem C01_adapter_worker_any_kind : forall O bs rp o i pf, (0 < bs)%N -> span_ok (o_dtspan O) -> src_ok O o pf ->
+  gate_passed O bs o [pf] ->
+  exists out, worker_out O bs rp o pf = (out, GOk) /\
               Forall2 ev_sim (mk_events i out) (spec_file_events O o i pf).
 Proof. exact worker_correct. Qed.
 Print Assumptions C01_adapter_worker_any_kind.
@@ -509,14 +525,14 @@ Print Assumptions C01_yearless_true_instants.
    undecodable record, a journal with equal receive times, a streamed year-less log crossing a
    year boundary; records, an event and two journal entries tie: source order decides ---- *)
 Example C01_program_example_mixed_domain :
-  domain O_ex opts_mx files_mx /\ gate_passed O_ex 64 files_mx /\ gate_passed O_ex 8 files_mx /\
+  domain O_ex opts_mx files_mx /\ gate_passed O_ex 64 opts_mx files_mx /\ gate_passed O_ex 8 opts_mx files_mx /\
   complete O_ex 2 opts_mx files_mx sched_mx.
 Proof. exact ex_mixed_domain. Qed.
 Print Assumptions C01_program_example_mixed_domain.
 
 Example C01_program_example_mixed :
-  program_m O_ex 2 64 sched_mx opts_mx files_mx = POk (program_spec O_ex opts_mx files_mx) /\
-  program_m O_ex 2 8 sched_mx opts_mx files_mx = POk (program_spec O_ex opts_mx files_mx) /\
+  program_m O_ex 2 64 rps_ex sched_mx opts_mx files_mx = POk (program_spec O_ex opts_mx files_mx) /\
+  program_m O_ex 2 8 rps_ex sched_mx opts_mx files_mx = POk (program_spec O_ex opts_mx files_mx) /\
   fst (program_spec O_ex opts_mx files_mx) = Print.obs expected_mx /\
   let t := snd (program_spec O_ex opts_mx files_mx) in
   Summary.u_bytes t = Print.blen expected_mx /\ Summary.u_sys t = 3%N /\ Summary.u_fixed t = 2%N /\
@@ -531,3 +547,204 @@ Example C01_program_example_yearless :
   = Some [(2020, 1607472000000000000); (2021, 1609545600000000000)]%Z.
 Proof. exact ex_yearless. Qed.
 Print Assumptions C01_program_example_yearless.
+
+(* ==========================================================================================
+   THIRD STAGE: journal renderings from the model, the early stop of the year walk
+   ========================================================================================== *)
+
+(* the journal text is no longer a parameter: JournalReader::next is Model/JournalRender.next_entry
+   with the regenerated configuration, for the --journal-output value and the host / zone bits in
+   the options; the loop of exec_journalprocessor emits the Found entries, skips ErrIgnore (`cat`
+   without MESSAGE) and never meets a formatter panic (C09 render_never_panics) *)
+Theorem C01_adapter_journal_emit : forall O o es,
+  journal_emit O o es =
+  (flat_map (fun e => match JournalRender.next_entry JournalTables.src_cfg (op_jenv o) (op_jout o) e with
+                      | JournalRender.NFound t => [journal_msg O e t]
+                      | _ => []
+                      end) es, GOk).
+Proof. exact journal_emit_spec. Qed.
+Print Assumptions C01_adapter_journal_emit.
+
+(* the instant the merge uses for a journal entry is its receive time (DT_USES_SOURCE_OVERRIDE of the
+   current source): non-decreasing receive times give a chronological source, no extra hypothesis *)
+Theorem C01_adapter_journal_sorted : forall O o j pf i, pf_kind pf = KJournalFile j -> src_ok O o pf ->
+  Sorted.StronglySorted Z.le (map ev_t (mk_events i (journal_spec O o j))).
+Proof. exact journal_spec_sorted. Qed.
+Print Assumptions C01_adapter_journal_sorted.
+
+(* the year walk AS THE CODE RUNS IT stops at the first message (from the end) before --dt-after
+   (C11 theorem 7); the messages above keep the filler year 1972.  The stopped walk is a prefix of
+   the full walk ... *)
+Theorem C01_walk_until_prefix : forall a fuel off rms year prev l,
+  Year.walk fuel off year prev rms = Some l ->
+  exists k, walk_until a fuel off year prev rms = Some (firstn k l) /\ (k <= length l)%nat /\
+            ((k < length l)%nat -> exists av yt, a = Some av /\ (0 < k)%nat /\ nth_error l (k - 1) = Some yt /\ (snd yt < av)%Z).
+Proof. exact walk_until_prefix. Qed.
+Print Assumptions C01_walk_until_prefix.
+
+(* ... and when the window does not reach back to the filler dates, the specification under the
+   stopped walk selects exactly the messages it selects under the full walk (the inferred dates):
+   this is what lets C01_program_correct speak about the run with the early stop *)
+Theorem C01_yearless_early_stop : forall O (o : options) off mtime (f : Chunk.file) tab tes,
+  yl_table O off mtime f = Some tab -> file_ok (yl_dated O tab) f ->
+  yl_table_es O (op_after o) off mtime f = Some tes ->
+  NoDup (yl_heads O f) ->
+  (forall av, op_after o = Some av ->
+     forall w, walk_until (op_after o) 2 off (Year.year_of_seconds off mtime) None (rev (yl_msgs O f)) = Some w ->
+     Forall (fun m => (filler_inst off m < av)%Z) (firstn (length (yl_msgs O f) - length w) (yl_msgs O f))) ->
+  text_spec (yl_dated O tes) (o_dtspan O) (op_after o) (op_before o) f =
+  text_spec (yl_dated O tab) (o_dtspan O) (op_after o) (op_before o) f.
+Proof. exact early_stop_spec_eq. Qed.
+Print Assumptions C01_yearless_early_stop.
+
+(* finding F17 at program level: without that hypothesis the composed statement is false.  True dates
+   1 Mar 1971, 1 Dec 1971, 1 Feb 1972, --dt-after 1972-01-01: March keeps the filler year, lies
+   inside the window and is printed; the specification (inferred dates) prints February only *)
+Theorem C01_program_f17_refuted :
+  (exists tab, yl_table O_ex 0 mt17 f17 = Some tab /\ file_ok (yl_dated O_ex tab) f17 /\
+               map snd tab = [36633600000000000; 60393600000000000; 65750400000000000]%Z) /\
+  NoDup (yl_heads O_ex f17) /\
+  (exists tes, yl_table_es O_ex (op_after opts17) 0 mt17 f17 = Some tes /\
+               map snd tes = [68256000000000000; 60393600000000000; 65750400000000000]%Z) /\
+  Print.payload (fst (program_spec O_ex opts17 files17)) = f17_spec_out /\
+  exists out t, program_m O_ex 1 64 rps_ex sched17 opts17 files17 = POk (out, t) /\
+                Print.payload out = f17_prog_out.
+Proof. exact ex_f17_refuted. Qed.
+Print Assumptions C01_program_f17_refuted.
+
+(* ==========================================================================================
+   THIRD STAGE, the cached reader machine (Model/Caches.v, work package A) inside the composition.
+   Props/C02.v states what the stage driver emits as BYTES (obs_stream = the spec groups).  The
+   composition needs of every emitted Sysline also its is_sysline_last flag and that each of its
+   Lines is a chain of non-empty block slices - functions of the stored OBJECT, not of its bytes (two
+   equal messages at different offsets).  Proofs/ProgramCaches.v re-runs the two driver inductions
+   of work package A from its own step lemmas with the conclusion "the i-th emitted object represents
+   (CachesSysProofs.ssl_ok) the i-th selected message AT ITS OFFSET"; Props/C02.v's
+   gate_then_refines (driver part) / streamed_window_driver are its byte observations
+   (ProgramCaches.plain_driver_obs / streamed_driver_obs).
+   ========================================================================================== *)
+From S4.Model Require Caches.
+From S4.Proofs Require CachesSysProofs ProgramCaches.
+
+(* seekable file: block-zero analysis (any k1, k2), then the stage driver with any drop plan *)
+Theorem C01_cached_driver_plain : forall dated bs (f : Chunk.file) k1 k2 plan, (0 < bs)%N ->
+  first_byte_ok dated f ->
+  exists sls, snd (Caches.c_stream dated bs f plan (Caches.c_gate dated k1 k2 bs f Caches.sr_init)) = Lines.Found sls /\
+              ProgramCaches.repr_at bs f sls (LinesSpec.syslines_at dated f).
+Proof. exact ProgramCaches.plain_driver_struct. Qed.
+Print Assumptions C01_cached_driver_plain.
+
+(* streamed file of any container kind (c: .gz/.bz2/.lz4 sequential decoder with the look-behind drop, .xz, tar
+   member), block drops enabled, with the datetime window (linear search) *)
+Theorem C01_cached_driver_streamed : forall dated c bs (f : Chunk.file) k1 k2 fa fb plan, (0 < bs)%N ->
+  first_byte_ok dated f ->
+  exists sls, snd (Caches.c_stream_win dated bs f fa fb plan
+                     (Caches.c_gate dated k1 k2 bs f (Caches.sr_init_b (Caches.b_open c bs (Chunk.lenN f))))) = Lines.Found sls /\
+              ProgramCaches.repr_at bs f sls (ProgramCaches.win_scan_at fa fb (LinesSpec.syslines_at dated f)).
+Proof. exact ProgramCaches.streamed_driver_struct. Qed.
+Print Assumptions C01_cached_driver_streamed.
+
+(* ADAPTER: a text worker over the cached machine sends the windowed spec messages of its file with their
+   is-last flags (up to the split of lines into block parts), for every reader parameter *)
+Theorem C01_adapter_cached_worker : forall dated dtspan, span_ok dtspan ->
+  forall bs rp a b streamed (f : Chunk.file) i, (0 < bs)%N -> file_ok dated f -> first_byte_ok dated f ->
+  cached_case a b streamed = true -> Gate.gate dated bs f = Gate.FileOk ->
+  exists out, cached_text_worker dated dtspan bs rp a b streamed f = (out, GOk) /\
+              Forall2 ev_sim (mk_events i out) (mk_events i (text_spec dated dtspan a b f)).
+Proof. exact cached_text_worker_correct. Qed.
+Print Assumptions C01_adapter_cached_worker.
+
+(* the composition over the PURE block-wise reader (second stage) is kept ... *)
+Theorem C01_program_pure_correct : forall O cap bs sched o files,
+  (0 < bs)%N -> domain O o files -> gate_passed O bs o files ->
+  complete O cap o files sched ->
+  program_pure O cap bs sched o files = POk (program_spec O o files).
+Proof. exact program_pure_correct. Qed.
+Print Assumptions C01_program_pure_correct.
+
+(* ... and the caches are not observable: whatever was cached, dropped, re-read *)
+Theorem C01_program_caches_unobservable : forall O cap bs rps sched o files,
+  (0 < bs)%N -> domain O o files -> gate_passed O bs o files ->
+  complete O cap o files sched ->
+  program_m O cap bs rps sched o files = program_pure O cap bs sched o files.
+Proof. exact program_caches_unobservable. Qed.
+Print Assumptions C01_program_caches_unobservable.
+
+(* two sufficient conditions for the oracle hypothesis first_byte_ok: an oracle that looks at the first
+   byte only; an oracle that dates no single byte of the file *)
+Theorem C01_first_byte_ok_head : forall dated (f : Chunk.file),
+  (forall c r r', dated (c :: r) = dated (c :: r')) -> first_byte_ok dated f.
+Proof. exact first_byte_ok_head. Qed.
+Print Assumptions C01_first_byte_ok_head.
+
+Theorem C01_first_byte_ok_undated : forall dated (f : Chunk.file),
+  (forall c, In c f -> dated [c] = None) -> first_byte_ok dated f.
+Proof. exact first_byte_ok_undated. Qed.
+Print Assumptions C01_first_byte_ok_undated.
+
+(* the cached machine at work: six messages, block size 4; 12 blocks stored / 4 dropped by the plan / 1 stored
+   behind the streamed .gz decoder (.xz and a tar member also run) - and the same six messages sent as by the pure reader *)
+Example C01_program_example_cached_reader :
+  let st streamed plan := fst (cached_driver dated_ex 4 (mkRp 2 1 plan Caches.KSeq) None None streamed f_six) in
+  reader_seen (st false []) = (0, 12, 6)%N /\ reader_seen (st false [true]) = (0, 8, 4)%N /\
+  reader_seen (st true [true]) = (12, 1, 4)%N /\
+  let pure := text_worker dated_ex dtspan_ex 4 None None false f_six in
+  length (fst pure) = 6%nat /\
+  cached_text_worker dated_ex dtspan_ex 4 (mkRp 2 1 [] Caches.KSeq) None None false f_six = pure /\
+  cached_text_worker dated_ex dtspan_ex 4 (mkRp 2 1 [true] Caches.KSeq) None None false f_six = pure /\
+  cached_text_worker dated_ex dtspan_ex 4 (mkRp 2 1 [true] Caches.KSeq) None None true f_six = pure /\
+  cached_text_worker dated_ex dtspan_ex 4 (mkRp 2 1 [true] Caches.KXz) None None true f_six = pure /\
+  cached_text_worker dated_ex dtspan_ex 4 (mkRp 2 1 [true] Caches.KTar) None None true f_six = pure.
+Proof. exact ex_cached_reader. Qed.
+Print Assumptions C01_program_example_cached_reader.
+
+(* ---- a SEEKABLE file WITH a window: the binary search with the reader state threaded through ---- *)
+
+(* the search loop over a find WITH STATE (Program.SSearch: s_bmatch / s_endgame / s_bloop / s_find_between / s_stream
+   with drop_data_try at the planned opportunities) against Model/Search.v: every call of a search started at
+   `fileoffset` is at or after `fileoffset`, so it is enough that the state answers every call at or after lo as the
+   layout says (Inv s lo), that this is monotone in lo, kept by find, and kept by drop_data_try of a message that
+   begins at or before lo *)
+Theorem C01_adapter_stateful_search : forall (St M : Type) (view : M -> Search.sl) (sfind : St -> N -> St * gfres M)
+    (sdrop : St -> M -> St) (P : M -> Prop) (gs : list Search.sl) (filesz : N) (Inv : St -> N -> Prop),
+  (forall s lo lo', Inv s lo -> (lo <= lo')%N -> Inv s lo') ->
+  (forall s lo fo, Inv s lo -> (lo <= fo)%N ->
+     Inv (fst (sfind s fo)) lo /\ frel M view P (snd (sfind s fo)) (Search.find gs fo)) ->
+  (forall s lo p, Inv s lo -> P p -> (Search.s_beg (view p) <= lo)%N -> Inv (sdrop s p) lo) ->
+  (forall fo x, Search.find gs fo = Search.FFound x -> (Search.s_next x <= filesz)%N) ->
+  (Search.lfuel gs <= g_lfuel filesz)%nat ->
+  forall a b plan s0 out, Inv s0 0%N ->
+  Search.text_out gs filesz false a b = (out, Search.Ok) ->
+  exists ms, snd (s_stream view sfind sdrop filesz (g_lfuel filesz) a b plan 0 s0 0%N None) = (ms, GOk) /\
+             map (fun mb => view (fst mb)) ms = out /\
+             Forall (fun mb => P (fst mb) /\ snd mb = g_is_last view filesz (fst mb)) ms.
+Proof. exact ssearch_refines. Qed.
+Print Assumptions C01_adapter_stateful_search.
+
+(* A1 over the cached machine: find_sysline at or after lo, on a sound state (work package A's rinv) whose dropped
+   ranges all end at or before lo, is the find oracle of Model/Search.v and keeps that state property *)
+Theorem C01_adapter_cached_find : forall dated bs (f : Chunk.file) st lo fo, (0 < bs)%N ->
+  cinv dated bs f st lo -> (lo <= fo)%N ->
+  cinv dated bs f (fst (cached_find dated bs f st fo)) lo /\
+  frel Caches.ssl (cview bs f) (cP dated bs f) (snd (cached_find dated bs f st fo)) (Search.find (gs_of dated f) fo).
+Proof. exact cached_find_rel. Qed.
+Print Assumptions C01_adapter_cached_find.
+
+Theorem C01_adapter_cached_window_worker : forall dated dtspan, span_ok dtspan ->
+  forall bs rp a b (f : Chunk.file) i, (0 < bs)%N -> file_ok dated f -> first_byte_ok dated f ->
+  Gate.gate dated bs f = Gate.FileOk ->
+  exists out, cached_win_worker dated dtspan bs rp a b f = (out, GOk) /\
+              Forall2 ev_sim (mk_events i out) (mk_events i (text_spec dated dtspan a b f)).
+Proof. exact cached_win_worker_correct. Qed.
+Print Assumptions C01_adapter_cached_window_worker.
+
+Example C01_program_example_cached_window :
+  let A := Some 3000000000%Z in let B := Some 5000000000%Z in
+  reader_seen (fst (cached_win_driver dated_ex 4 (mkRp 2 1 [] Caches.KSeq) A B f_six)) = (0, 12, 6)%N /\
+  reader_seen (fst (cached_win_driver dated_ex 4 (mkRp 2 1 [true] Caches.KSeq) A B f_six)) = (0, 11, 4)%N /\
+  (let c := Caches.s_cnt (fst (cached_win_driver dated_ex 4 (mkRp 2 1 [true] Caches.KSeq) A B f_six)) in
+   (Caches.sc_lru_miss c, Caches.sc_range_hit c) = (10, 3)%N) /\
+  length (fst (text_worker dated_ex dtspan_ex 4 A B false f_six)) = 3%nat /\
+  cached_win_worker dated_ex dtspan_ex 4 (mkRp 2 1 [true] Caches.KSeq) A B f_six = text_worker dated_ex dtspan_ex 4 A B false f_six.
+Proof. exact ex_cached_window. Qed.
+Print Assumptions C01_program_example_cached_window.
